@@ -429,6 +429,10 @@ def run(houses, tick=0.125, horizon=8, env_front=None, env_back=None, watch=(), 
             sh = house.store.fetchShare(p)
             if sh is not None:
                 snap["shares"][p] = (tuple(sh.items()), sh.stamp)
+                if sh.marks:
+                    snap.setdefault("marks", {})[p] = tuple(
+                        (key, m.stamp, m.used, None if m.data is None else tuple(sorted(m.data.__dict__.items())))
+                        for key, m in sh.marks.items())
         res.ticks.append(snap)
         res.events.append(list(EVENTS))
         EVENTS.clear()
